@@ -165,6 +165,9 @@ class AsymmetricKey(Key):
                 raw.options.update(options)
             return raw
 
+        if isinstance(raw, Key):
+            raise ValueError(f'Invalid key: a "{cls.kty}" key is required')
+
         if isinstance(raw, cls.PUBLIC_KEY_CLS):
             key = cls(public_key=raw, options=options)
         elif isinstance(raw, cls.PRIVATE_KEY_CLS):
